@@ -71,6 +71,8 @@ class VMDK(AlignedStream):
                         self.disks.append(
                             RawDisk(rdisk_fh, extent.sectors * SECTOR_SIZE, start_sector=extent.start_sector or 0)
                         )
+                    elif extent.type == "ZERO" and extent.sectors:
+                        self.disks.append(ZeroDisk(extent.sectors * SECTOR_SIZE))
 
             elif magic in (COWD_MAGIC, VMDK_MAGIC, SESPARSE_MAGIC):
                 sparse_disk = SparseDisk(fh)
@@ -154,6 +156,21 @@ class RawDisk:
 
         self.fh.seek((self.start_sector + sector - self.sector_offset) * SECTOR_SIZE)
         return self.fh.read(count * SECTOR_SIZE)
+
+
+class ZeroDisk:
+    """An extent without a backing file (``ZERO`` extent description): it occupies its sectors and reads as zeroes."""
+
+    def __init__(self, size: int, offset: int = 0, sector_offset: int = 0):
+        self.size = size
+        self.offset = offset
+        self.sector_offset = sector_offset
+        self.sector_count = size // SECTOR_SIZE
+
+    def read_sectors(self, sector: int, count: int) -> bytes:
+        log.debug("ZeroDisk::read_sectors(0x%x)", sector)
+
+        return b"\x00" * (count * SECTOR_SIZE)
 
 
 class SparseDisk:
